@@ -788,6 +788,11 @@ def as_stubs(text):
             continue
         if tw and tw.group(1) == '__total':
             head = head.replace(' | twin=__total', '')
+            if name == 'frame_close':
+                # what a caller may rely on = the total contract AND, when the functional premise holds, the functional result
+                # (both are verified on the same body in the event unit: frame_close and frame_close__total)
+                body = body.replace('ensures state_swf(&*final(self)) /*[C06.frame_close_total]*/,',
+                                    'ensures state_swf(&*final(self)) /*[C06.frame_close_total]*/,\n\t\tall_closable(&*old(self)) ==> rows_level(&*final(self)),', 1)
         if ' | stub' not in head:
             head += ' | stub'
         # keep only the contract part of the body (sections are ignored for stubs anyway)
